@@ -63,8 +63,8 @@ def run(cwd, module, cfg=None, workers=None, timeout=600, env=None, args=(), hea
     workers = workers or common.NCPU
     meta = tempfile.mkdtemp(prefix='meta-%s-' % module, dir=cwd)
     jopts = ['-XX:+UseParallelGC', '-Xss64m']
-    if heap:
-        jopts.append('-Xmx%s' % heap)
+    # (without a bound a JVM takes a quarter of the machine; several checks side by side then run the machine out of memory)
+    jopts.append('-Xmx%s' % (heap or '10g'))
     if dfs:
         jopts.append('-Dtlc2.tool.queue.IStateQueue=StateDeque')
     cmd = ['java'] + jopts + ['-cp', JAR + ':' + DEPS, 'tlc2.TLC',
